@@ -340,6 +340,11 @@ func VerifyFunc(pr *Prog, eff *Effects, fi *FuncInfo, opts VerifyOpts) (rep *Fun
 		x.lockState(fin, keys, "exit", fi.Decl.Pos())
 	}
 	if spec != nil {
+		if fin != nil && !fin.dead() && x.lock == nil && len(spec.Requires) > 0 {
+			// vacuity guard: the function can return (an unsatisfiable return state would make every postcondition trivial)
+			o := x.emit(fin, fi.Key+"/cover.exit", "cover", TFalse, fi.Decl.Pos(), "the function can return under its preconditions (must NOT be unsat)")
+			o.Cover = true
+		}
 		if fin != nil && !fin.dead() {
 			env := x.newSpecEnvFrame(fin, fr, fnBody.Lbrace+1)
 			env.pos = 0
